@@ -27,6 +27,8 @@ fn main() {
       match args.pos[1].as_str() {
         "C01" => sc_nested::record_c01(&mut rng, count, &mut out),
         "C02" => sc_nested::record_c02(&mut rng, count, &mut out),
+        "C03" => sc_nested::record_c03(&mut rng, count, &mut out),
+        "C19" => sc_nested::record_c19(&mut rng, count, &mut out),
         "C04" => sc_nested::record_c04(&mut rng, count, &mut out),
         "C14" => sc_nested::record_c14(&mut rng, count, &mut out),
         "C07" => sc_bmoc::record_c07(&mut rng, count, &mut out),
@@ -54,6 +56,8 @@ fn main() {
         stats.lines += 1;
         match args.pos[1].as_str() {
           "C01" => sc_nested::replay_c01(&v, &mut out, &mut stats),
+          "C03" => sc_nested::replay_c03(&v, &mut out, &mut stats),
+          "C19" => sc_nested::replay_c19(&v, &mut out, &mut stats),
           "C04" => sc_nested::replay_c04(&v, &mut out, &mut stats),
           "C14" => sc_nested::replay_c14(&v, &mut out, &mut stats),
           "BMOC" => sc_bmoc::replay_bmoc(&v, &mut out, &mut stats, &mut bregs),
